@@ -467,7 +467,7 @@ def pathological_schema(r):
     c = r.choice(["deep-scopes", "deep-if", "deep-expr", "long-remark", "long-string", "long-identifier", "many-entities", "deep-select", "deep-subtype",
                   "use-cycle", "use-cycle", "self-use", "function-as-value", "long-binary", "long-encoded", "wide-expr", "deep-aggregate-type", "deep-index",
                   "deep-query", "many-params", "supertype-expr", "subtype-cycle", "select-cycle", "type-cycle", "long-where-label", "many-enum-items",
-                  "rename-clash", "derive-cycle", "kind-confusion", "kind-confusion", "kind-confusion", "same-name-across-schemas", "same-name-across-schemas", "escape-heavy", "escape-heavy"])
+                  "rename-clash", "derive-cycle", "kind-confusion", "kind-confusion", "kind-confusion", "same-name-across-schemas", "same-name-across-schemas", "escape-heavy", "escape-heavy", "literal-as-name", "literal-as-name"])
     n = r.choice([21, 30, 100])
     multi = _patho_more(r, c, n)
     if multi is not None:
@@ -539,6 +539,19 @@ def _patho_more(r, c, n):
                 "TYPE t = INTEGER;\nEND_TYPE;\nFUNCTION f (a : t) : t;\nRETURN (a);\nEND_FUNCTION;\nEND_SCHEMA;\n"
                 "SCHEMA b;\n%sENTITY x%s;\n m : REAL;\nEND_ENTITY;\nENTITY leaf SUBTYPE OF (x);\nEND_ENTITY;\nENTITY other SUBTYPE OF (x);\nEND_ENTITY;\n"
                 "TYPE t = REAL;\nEND_TYPE;\nFUNCTION f (a : t) : t;\nRETURN (a);\nEND_FUNCTION;\nEND_SCHEMA;\n" % (sup_a, x_a, link, x_b))
+    if c == "literal-as-name":
+        # `?` and SELF are `identifier`s for the grammar: everywhere a NAME is declared they have to be refused, not used
+        nm = r.choice(["?", "?", "SELF"])
+        form = r.choice(["CONSTANT\n %s : INTEGER := 1;\nEND_CONSTANT;\n", "ENTITY e;\n %s : INTEGER;\nEND_ENTITY;\n", "ENTITY %s;\n x : INTEGER;\nEND_ENTITY;\n",
+                         "TYPE %s = INTEGER;\nEND_TYPE;\n", "TYPE t = ENUMERATION OF (a, %s);\nEND_TYPE;\n", "FUNCTION %s (a : INTEGER) : INTEGER;\nRETURN (a);\nEND_FUNCTION;\n",
+                         "FUNCTION f (%s : INTEGER) : INTEGER;\nRETURN (1);\nEND_FUNCTION;\n", "FUNCTION f (a : INTEGER) : INTEGER;\nLOCAL\n %s : INTEGER;\nEND_LOCAL;\nRETURN (a);\nEND_FUNCTION;\n",
+                         "ENTITY e;\n x : INTEGER;\nDERIVE\n %s : INTEGER := x;\nEND_ENTITY;\n", "ENTITY e;\n x : INTEGER;\nWHERE\n %s : x > 0;\nEND_ENTITY;\n",
+                         "ENTITY e;\n x : INTEGER;\nUNIQUE\n %s : x;\nEND_ENTITY;\n", "ENTITY e;\n x : e;\nINVERSE\n %s : e FOR x;\nEND_ENTITY;\n",
+                         "RULE %s FOR (e);\nWHERE\n w : TRUE;\nEND_RULE;\nENTITY e;\nEND_ENTITY;\n", "PROCEDURE %s;\nEND_PROCEDURE;\n",
+                         "FUNCTION f (a : LIST OF INTEGER) : INTEGER;\nREPEAT %s := 1 TO 2;\nEND_REPEAT;\nRETURN (SIZEOF(QUERY(%s <* a | TRUE)));\nEND_FUNCTION;\n",
+                         "FUNCTION f (a : LIST OF INTEGER) : INTEGER;\nALIAS %s FOR a;\nEND_ALIAS;\nRETURN (1);\nEND_FUNCTION;\n", "USE FROM other (%s);\n", "REFERENCE FROM other (x AS %s);\n"])
+        head = "SCHEMA %s;\n" % (nm if r.random() < 0.1 else "patho")
+        return head + form.replace("%s", nm) + "END_SCHEMA;\n" + ("SCHEMA other;\nENTITY x;\nEND_ENTITY;\nEND_SCHEMA;\n" if "other" in form else "")
     if c == "escape-heavy":
         # string literals full of characters that a printer has to escape or double, wherever a tool re-prints an expression:
         # DERIVE initializers, WHERE rules, constants, CASE labels, default values of locals
